@@ -338,9 +338,13 @@ def emit_ignore(tree):
         ab[1] == 'trainable_params=hk.data_structures.map(non_trainable_to_none,params)' and
         ab[2] == 'opt_state,trainable_params=optimizer.apply(trainable_grads,opt_state,trainable_params)' and
         ab[3] == 'trainable_params=hk.data_structures.to_mutable_dict(trainable_params)')
-  restores = (len(ab) == 6 and ab[4] ==
+  # restore loop, then (optionally one statement re-building the caller's container kinds) the return of (opt_state, params)
+  last = _body(ap[0])[-1]
+  restores = (len(ab) in (6, 7) and ab[4] ==
               'formodule_name,nameinnon_trainable_names:trainable_params[module_name][name]=params[module_name][name]' and
-              ab[5] == 'return(opt_state,hk.data_structures.to_immutable_dict(trainable_params))')
+              isinstance(last, ast.Return) and isinstance(last.value, ast.Tuple) and len(last.value.elts) == 2 and
+              _src(last.value.elts[0]) == 'opt_state' and
+              all('grads' not in x and 'optimizer.apply' not in x for x in ab[5:]))
   return ('(* named leaves become None (the empty subtree) in grads and params before the base optimizer runs *)\n'
           f'Definition ignore_masks_named_to_none : bool := {_b(masks and ok)}.\n'
           '(* ... and are put back from the INPUT params afterwards *)\n'
